@@ -66,6 +66,12 @@ func main() {
 		c18.Child(os.Args[2], os.Args[3], procs, builds, os.Args[6:])
 		return
 	}
+	if os.Args[1] == "C18gen" && len(os.Args) == 4 {
+		// debugging aid: write the generated program number N of the current seed to a directory
+		n, _ := strconv.Atoi(os.Args[3])
+		c18.WriteProgram(vf.Start("C18", "exploration"), os.Args[2], n)
+		return
+	}
 	if os.Args[1] == "--needs" && len(os.Args) > 2 {
 		fmt.Println(checks[os.Args[2]].needs)
 		return
